@@ -114,9 +114,9 @@ func (o c13Obs) String() string {
 	return fmt.Sprintf("OUT %q trace=%s", o.out, o.trace)
 }
 
-func c13Exec(b *core.B, how string, f func(ctx *plush.Context) (string, error)) (c13Obs, bool) {
+func c13Exec(b *core.B, how string, variant int, f func(ctx *plush.Context) (string, error)) (c13Obs, bool) {
 	env := &progEnv{}
-	ctx := progCtx(env)
+	ctx := progCtxV(env, variant)
 	var out string
 	var err error
 	pan := core.Guard(func() { out, err = f(ctx) })
@@ -145,17 +145,22 @@ func c13Run(b *core.B) {
 		progs := make([]*pProg, m)
 		texts := make([]string, m)
 		for j := range progs {
-			progs[j] = genProgram(r, 2, func(g *pGen) { g.hashBias = true })
+			progs[j] = genProgram(r, 2, func(g *pGen) { g.hashBias = true; g.partials = true })
 			texts[j] = progs[j].canonical()
 		}
 		if !b.Begin(strings.Join(texts, "\n=====\n")) {
 			continue
 		}
-		ref := make([]*c13Obs, m)
-		judge := func(j int, how string, o c13Obs, ok bool) bool {
+		// every text is executed with two different data sets; each (text, data)
+		// pair has its own reference, so anything cached by text or name alone
+		// shows up as the other data set's result
+		ref := make([]*c13Obs, 2*m)
+		variant := 0
+		judge := func(jt int, how string, o c13Obs, ok bool) bool {
 			if !ok {
 				return false
 			}
+			j := 2*jt + variant
 			b.Count("exec:" + how)
 			if ref[j] == nil {
 				oc := o
@@ -170,10 +175,13 @@ func c13Run(b *core.B) {
 					what = "side-effect-order"
 				}
 				cls := "plain"
-				if progs[j].features["side-effect-in-hash"] || progs[j].features["hash-literal"] {
+				if progs[jt].features["side-effect-in-hash"] || progs[jt].features["hash-literal"] {
 					cls = "hash-literal"
 				}
-				b.ViolateIn("nondeterministic-"+what+"|"+how+"|"+cls, texts[j], fmt.Sprintf("first execution: %s\nthis execution (%s): %s", *ref[j], how, o))
+				if progs[jt].features["partial"] {
+					cls = "with-partial"
+				}
+				b.ViolateIn("nondeterministic-"+what+"|"+how+"|"+cls, texts[jt], fmt.Sprintf("data set %d, first execution: %s\nthis execution (%s): %s", variant, *ref[j], how, o))
 				return false
 			}
 			return true
@@ -186,7 +194,7 @@ func c13Run(b *core.B) {
 			t, err := plush.NewTemplate(texts[j])
 			if err != nil {
 				tmpls[j] = nil
-				o, ok := c13Exec(b, "render", func(ctx *plush.Context) (string, error) { return plush.Render(texts[j], ctx) })
+				o, ok := c13Exec(b, "render", variant, func(ctx *plush.Context) (string, error) { return plush.Render(texts[j], ctx) })
 				good = judge(j, "render/parse-error", o, ok) && good
 				continue
 			}
@@ -195,6 +203,7 @@ func c13Run(b *core.B) {
 		k := r.Range(3, 8)
 		for step := 0; step < k && good; step++ {
 			j := r.Intn(m)
+			variant = r.Intn(2)
 			t := tmpls[j]
 			if t == nil {
 				continue
@@ -206,17 +215,17 @@ func c13Run(b *core.B) {
 			var ok bool
 			switch how {
 			case "exec":
-				o, ok = c13Exec(b, how, func(ctx *plush.Context) (string, error) { return t.Exec(ctx) })
+				o, ok = c13Exec(b, how, variant, func(ctx *plush.Context) (string, error) { return t.Exec(ctx) })
 			case "clone-exec":
 				c := t.Clone()
-				o, ok = c13Exec(b, how, func(ctx *plush.Context) (string, error) { return c.Exec(ctx) })
+				o, ok = c13Exec(b, how, variant, func(ctx *plush.Context) (string, error) { return c.Exec(ctx) })
 				if ok && plush.VerifProgram(c) != prog && programHash(plush.VerifProgram(c)) != before {
 					b.ViolateIn("clone-differs", texts[j], "the clone's program is neither shared nor structurally equal")
 				}
 			case "render":
-				o, ok = c13Exec(b, how, func(ctx *plush.Context) (string, error) { return plush.Render(texts[j], ctx) })
+				o, ok = c13Exec(b, how, variant, func(ctx *plush.Context) (string, error) { return plush.Render(texts[j], ctx) })
 			case "parse-exec":
-				o, ok = c13Exec(b, how, func(ctx *plush.Context) (string, error) {
+				o, ok = c13Exec(b, how, variant, func(ctx *plush.Context) (string, error) {
 					t2, err := plush.Parse(texts[j])
 					if err != nil {
 						return "", err
@@ -234,12 +243,14 @@ func c13Run(b *core.B) {
 		plush.CacheEnabled = true
 		for j := 0; j < m && good; j++ {
 			nonce++
+			variant = r.Intn(2)
 			tn := texts[j] + fmt.Sprintf("<%%# nonce %d-%d-%d %%>", b.Batch, i, nonce)
-			o, ok := c13Exec(b, "cold", func(ctx *plush.Context) (string, error) { return plush.Render(tn, ctx) })
+			o, ok := c13Exec(b, "cold", variant, func(ctx *plush.Context) (string, error) { return plush.Render(tn, ctx) })
 			good = judge(j, "cache-on/cold-render", o, ok) && good
 			var cached *plush.Template
-			for w := 0; w < 2 && good; w++ {
-				o, ok = c13Exec(b, "warm", func(ctx *plush.Context) (string, error) {
+			for w := 0; w < 3 && good; w++ {
+				variant = w % 2 // the warm template is executed with both data sets
+				o, ok = c13Exec(b, "warm", variant, func(ctx *plush.Context) (string, error) {
 					t, err := plush.Parse(tn)
 					if err != nil {
 						return "", err
@@ -267,7 +278,8 @@ func c13Run(b *core.B) {
 		// --- repeats: Go map order nondeterminism is probabilistic
 		for j := 0; j < m && good; j++ {
 			for rep := 0; rep < reps && good; rep++ {
-				o, ok := c13Exec(b, "repeat", func(ctx *plush.Context) (string, error) { return plush.Render(texts[j], ctx) })
+				variant = rep % 2
+				o, ok := c13Exec(b, "repeat", variant, func(ctx *plush.Context) (string, error) { return plush.Render(texts[j], ctx) })
 				good = judge(j, "repeat-fresh-parse", o, ok) && good
 			}
 		}
